@@ -170,6 +170,9 @@ def transP (rs : RSt) (pc : PPc) : String :=
 def cands (rs : RSt) (_t : Nat) (ev : Event) : List (Label × RSt × String) :=
   let s := rs.s
   let sh := s.sh
+  -- family `cqueue_co` has src/park.rs in its filter (to let the perturbation stall inside `unpark` / `Park::subscribe`):
+  -- the Park of a blocker is below this model's abstraction (binary token, C02 is its own check)
+  if ev.obj.startsWith "park." then [({ obj := ev.obj, inst := none, op := ev.op }, rs, "X.park")] else
   -- ---------------------------------------------------------------- the poller and its kernel tails
   if ev.actor == rs.poller then
     if ev.kind == "call" then
